@@ -484,12 +484,12 @@ impl Check for C11 {
         "C11"
     }
     fn rule(&self) -> String {
-        "schedules = every vector of in-flight request phases (worker parked at started / result computed / exited, via hook H1 gates) for k <= 2 (quick) or k <= 3 (thorough) x {didChange, didSave} x {same note, other note} x every release order, enumerated exhaustively; plus hook-free floods of mixed messages sent without waiting (final-state check only) and random longer histories; oracle = last-writer-wins register per note, checked at quiescence and for a request issued right after the notification; distinct = phase vectors / event-order strings observed".into()
+        "schedules = every vector of in-flight request phases (worker parked at started / acquired = inside the computation holding its server handle / result computed / exited, via hook H1 gates) x every request method the router serves for k <= 2 (quick) or k <= 3 (thorough) x {didChange, didSave} x {same note, other note} x every release order, enumerated exhaustively; plus hook-free floods of mixed messages sent without waiting (final-state check only) and random longer histories; oracle = last-writer-wins register per note, checked at quiescence and for a request issued right after the notification; a notification that cannot be applied while a worker is parked at `acquired` is judged by bounded progress: after the park is released the notification must be applied and the register must hold (a server that blocks the edit until the reader finishes is correct, one that drops it is not); distinct = phase vectors / event-order strings observed".into()
     }
     fn assumptions(&self) -> Vec<String> {
         vec![
-            "interleavings are controlled at hook granularity (start of worker, after compute before respond, after the worker dropped its server handle); finer interleavings only by the OS scheduler in the flood variant".into(),
-            "gates lie outside every critical section, so they only create interleavings the OS scheduler could create".into(),
+            "interleavings are controlled at hook granularity (start of worker, after the worker took its server handle, after compute before respond, after the worker dropped its server handle); finer interleavings only by the OS scheduler in the flood variant".into(),
+            "the started / computed / exited gates lie outside every critical section; the acquired gate lies inside the reader's critical section on purpose (a slow request), which the OS scheduler can also produce; the scheduler never waits for an event that the parked worker itself blocks".into(),
         ]
     }
     fn plan(&self, tier: Tier, _seed: u64) -> Plan {
